@@ -188,8 +188,16 @@ func (rs *memFilterResultSet) Load(ctx *flow.DataLoadContext) flow.DataLoader {
 	if foundSeriesIDs.GetCardinality() == 0 {
 		return nil
 	}
+	// the data-load stages of the query's series-id containers run in parallel and every loader
+	// points its field entries at the page of the series it is reading (fieldEntry.Reset):
+	// each loader needs field entries of its own.
+	fields := make([]*fieldEntry, len(rs.fields))
+	for i, fe := range rs.fields {
+		entry := *fe
+		fields[i] = &entry
+	}
 	// must use lowContainer from store, because get series index based on container
-	return NewTimeSeriesLoader(rs.db, rs.timeSeriesIndex, ctx.SeriesIDHighKey, *rs.slotRange, rs.fields)
+	return NewTimeSeriesLoader(rs.db, rs.timeSeriesIndex, ctx.SeriesIDHighKey, *rs.slotRange, fields)
 }
 
 // Close release the resource during doing query operation.
